@@ -87,7 +87,8 @@ def lean_prepare(ctx, required, modules=None):
     lock = open(os.path.join(LEAN, '.lock'), 'w')
     fcntl.flock(lock, fcntl.LOCK_EX)
     try:
-        import extract
+        import extract, mkdriver
+        mkdriver.run()
         broken = extract.run(SRC, os.path.join(LEAN, 'QsmtpModel', 'Gen'))
         for b in broken:
             ctx.unshown.append('extract:' + b)
